@@ -53,6 +53,9 @@ func (c *badRegexpChecker) VisitExpr(x ast.Expr) {
 
 	switch stdlibFuncName(c.ctx, call.Fun) {
 	case "regexp.Compile", "regexp.MustCompile":
+		if len(call.Args) == 0 {
+			return // Not enough arguments: the package doesn't type-check
+		}
 		cv := c.ctx.TypesInfo.Types[call.Args[0]].Value
 		if cv == nil || cv.Kind() != constant.String {
 			return
